@@ -36,14 +36,27 @@ ASSUMPTIONS = [
 FLOORS = {"quick": {"sessions": 5000, "steps": 60000, "steps:NO-outcomes": 6000,
                     "emulated-renames": 1000, "segmented-sessions": 2000,
                     "socketpair-sessions": 150, "reconnects": 1500, "sessions-on-a-slow-link": 800,
-                    "reconnects-refused": 500},
+                    "reconnects-refused": 500, "inactive-names-listed-as-literals": 2000},
           "thorough": {"sessions": 500000, "steps": 6000000, "steps:NO-outcomes": 600000,
                        "emulated-renames": 90000, "segmented-sessions": 200000,
                        "socketpair-sessions": 3000, "reconnects": 100000,
-                       "reconnects-refused": 30000}}
+                       "reconnects-refused": 30000,
+                       "inactive-names-listed-as-literals": 200000}}
 SHARD_TIMEOUT = {"quick": 600, "thorough": 3000}
 
-NAMES_CONV = ["main", "vacation", "x y", "été", "spam-rules"]
+NAMES_CONV = ["main", "vacation", "x y", "été", "spam-rules",
+              # names that end like the listing's own marker, or in a blank
+              "inactive", "Proactive", "old ACTIVE", "trail ", " lead"]
+
+
+def conv_name(srv, name, res):
+    """conventional listing: names as quoted strings - except that a name which is not the
+    active one and does not start with a double quote is sent as a literal now and then (RFC
+    5804 lets the server choose; the two excluded shapes are C17's recorded findings)"""
+    if name != srv.active and not name.startswith(b'"') and srv.rng.random() < 0.3:
+        res.count("inactive-names-listed-as-literals")
+        return ms.literal(name)
+    return ms.quoted(name)
 NAMES_ANY = ["main", 'q"q', "{5}", "OK", "a\\b", "ACTIVE",
              # at most 1024 octets raw, more than 1024 once '"' and '\\' are escaped
              "x" * 1000 + '"' * 20, "\\" * 513, 'é"' * 341,
@@ -122,7 +135,7 @@ def run_session(rng, res: Result, idx, real_socket=False):
             if not srv._want(args):
                 return
             for name in srv.scripts:
-                srv.emit(ms.quoted(name))
+                srv.emit(conv_name(srv, name, res))
                 if name == srv.active:
                     srv.emit(b" " + srv.active_marker)
                 srv.emit(ms.CRLF)
@@ -181,7 +194,7 @@ def _run_steps(rng, res, idx, sess, srv, conv, names, version, segmented, real_s
                     if not srv._want(args):
                         return
                     for name in srv.scripts:
-                        srv.emit(ms.quoted(name))
+                        srv.emit(conv_name(srv, name, res))
                         if name == srv.active:
                             srv.emit(b" " + srv.active_marker)
                         srv.emit(ms.CRLF)
